@@ -63,7 +63,7 @@ ASSUMPTIONS = [
 ]
 SHARD_TIMEOUT = {"quick": 600, "thorough": 3000}
 N_CASES = {"quick": 360, "thorough": 6400}
-N_SHARDS = {"quick": 11, "thorough": 16}
+N_SHARDS = {"quick": 5, "thorough": 14}  # (the work of the quick tier is ~10 CPU-s; every extra shard costs ~2.5 CPU-s of imports)
 
 
 # ---- plan / replay -----------------------------------------------------------------------------------------
@@ -75,7 +75,7 @@ def plan(tier, seed):
         specs.append({"shard": si, "tier": tier, "seed": seed, "cases": ch})
     # the example corpus: both tiers (it contains the only hierarchical plans); spread over 4 extra shards
     names = example_names()
-    for j, ch in enumerate(chunk(names, 4 if tier == "quick" else 8)):
+    for j, ch in enumerate(chunk(names, 1 if tier == "quick" else 2)):
         specs.append({"shard": len(specs), "tier": tier, "seed": seed, "cases": [], "examples": ch})
     return specs
 
@@ -136,6 +136,7 @@ def exc_signature(e):
     msg = re.sub(r"'[^']*'", "'..'", msg)
     msg = re.sub(r"`[^`]*`", "`..`", msg)
     msg = re.sub(r"-?[0-9]+(/[0-9]+)?", "N", msg)
+    msg = re.sub(r"\s+", " ", msg).strip()
     return f"{type(e).__name__}:{where}:{msg[:70]}"
 
 
@@ -467,6 +468,9 @@ class RT:
             if "metrics" in diff and vr.metrics == {} and vr2.metrics is None:
                 diff.remove("metrics")
                 self.res.count("dontcare:validation-result:metrics-empty-vs-absent")
+            if "log_messages" in diff and not vr.log_messages and not vr2.log_messages:
+                diff.remove("log_messages")  # (cannot occur today: the writer raises TypeError on log_messages=None)
+                self.res.count("dontcare:validation-result:log_messages-empty-vs-absent")
             if not diff:
                 return
             wrong = sorted(set(diff) & VR_CARRIED)
